@@ -6,6 +6,8 @@ PROFILES = {
     # call log with pairwise "equal input <-> equal digest" constraints (hashack: same injective function as the
     # table-backed one, 4..20x cheaper for chained hashes of symbolic data)
     'merkle': {'features': ['bytes64', 'bytesdirect', 'nh12', 'hashack']},
+    # depth-3 trees (8 leaves): 7 + 6 oracle calls, 24 records (thorough tier only)
+    'merkle3': {'features': ['bytes64', 'bytesdirect', 'nh24', 'hashack']},
     # webauthn: client data up to 192 bytes, oracle inputs of 32 words, 21-word secp256r1 query;
     # utf8stub compiles verifiers::wa (harnesses carry #[kani::stub(core::str::from_utf8, ..)], needs -Z stubbing)
     'webauthn': {'features': ['utf8stub', 'bytes192', 'hw32', 'aw40', 'bytesdirect', 'slicedirect', 'hashack'], 'stubbing': True},
@@ -25,6 +27,8 @@ T4 = ('tree of 4 leaves (depth 2) built in the harness with an independent refer
       'values; leaf index symbolic 0..3; hashes: injective oracle, <= 12 calls; unwind 14')
 T4H = ('tree of 4 leaves (depth 2) built in the harness, leaves = H(d_i) for 4 pairwise distinct ARBITRARY 32-byte leaf data d_i (the '
        'distributor hashes the XDR of the leaf the same way); leaf index symbolic 0..3; appended element / other root arbitrary; unwind 14')
+T8 = ('tree of 8 leaves (depth 3) built in the harness by the independent reference, leaves = 8 ARBITRARY 32-byte values; candidate leaf / proof '
+      'elements arbitrary; hashes: injective oracle, <= 24 calls; unwind 26')
 T3 = ('unbalanced tree N(N(l0, l1), l2), leaves = H(d_i) for 3 pairwise distinct arbitrary 32-byte leaf data; honest proofs of all 3 leaves; '
       'candidate value, index and proof (1 or 2 arbitrary elements) arbitrary; unwind 14')
 FOLD = 'proof of symbolic length 0..4 with arbitrary elements, arbitrary leaf / root / index (full u32); unwind 14'
@@ -56,6 +60,9 @@ def merkle(mod, hname, quick_all):
         k('corrupt_reorder_index_indexed', MVI, T4H + '; wrong index: any u32 other than the leaf\'s', tier=t),
         k('tree3_sorted', MV, T3, tier=t),
         k('tree3_indexed', MVI, T3, tier=t),
+        K(P + 'honest8', profile='merkle3', tier='thorough', must_succeed=True, functions=MV + MVI + HF, bounds=T8 + '; either form, leaf index symbolic 0..7'),
+        K(P + 'sound8_sorted', profile='merkle3', tier='thorough', functions=MV + HF, bounds=T8 + '; proof = 3 arbitrary elements'),
+        K(P + 'sound8_indexed', profile='merkle3', tier='thorough', functions=MVI + HF, bounds=T8 + '; proof = 3 arbitrary elements, index full u32'),
         k('verify_is_fold', MV, FOLD, tier='thorough', must_succeed=True),
         k('verify_with_index_is_fold', MVI, FOLD, tier='thorough'),
         k('dist_claim_sorted', DIST_S, DIST),
@@ -122,7 +129,7 @@ C18 = [
 CHECKS = {
     'C17': {
         'kani': merkle('keccak', 'keccak::Keccak256', True) + merkle('sha', 'sha256::Sha256', False),
-        'bounds': ('trees: balanced 4 leaves (depth 2) and unbalanced 3 leaves, built in the harness by an independent reference; proofs of 0..4 '
+        'bounds': ('trees: balanced 4 leaves (depth 2), unbalanced 3 leaves and (thorough) balanced 8 leaves (depth 3), built in the harness by an independent reference; proofs of 0..4 '
                    'arbitrary elements; distributor: ' + DIST + '; both hashers (Keccak-256: whole family in the quick tier; SHA-256: honest / '
                    'soundness / short-proof / guard / distributor step harnesses quick, corruption, 3-leaf and history harnesses thorough)'),
         'outside_claim': (
@@ -136,7 +143,7 @@ CHECKS = {
             '(d) with leaves = H(32-byte data) (no 64-byte pre-images): truncated (drop last), extended (append any element), reordered proofs, any other '
             'root, any other index: false or trap; 3-leaf tree: honest proofs verify and whatever verifies with 1 or 2 elements is honest. With FREE leaf '
             'values (d) is not provable: the oracle admits the cycle l0 = H(l0 || l1) with l1 = n23, for which root = n01 and the truncated proof passes. '
-            'OUTSIDE: trees deeper than 2 / more than 4 leaves (verify_is_fold / verify_with_index_is_fold show, for every proof length 0..4, that the '
+            '(e) thorough tier: (a) and (b) for the 8-leaf tree of depth 3 with 3-element proofs. OUTSIDE: trees deeper than 3 / more than 8 leaves (verify_is_fold / verify_with_index_is_fold show, for every proof length 0..4, that the '
             'library result is the reference fold compared with the root; the level-by-level soundness argument for deeper trees is the same oracle '
             'argument, not machine-checked); the `len >= 32` guard of verify_with_index (unreachable with 4-element vectors; the `index >= 2^len` guard '
             'is checked for len 0..4 and full-u32 index); real SHA-256 / Keccak-256 (collision resistance is the oracle assumption); byte-exact XDR (the '
